@@ -62,6 +62,33 @@ impl Km {
     }
 }
 
+impl Km {
+    /// `got` is the kernel function of `a`, `b` up to the rounding of a differently ordered dot
+    /// product (ndarray adds eight partial sums; the naive loop adds left to right)
+    fn entry_ok(&self, got: f64, a: &[f64], b: &[f64]) -> bool {
+        let want = self.eval(a, b);
+        if approx(got, want, 1e-12, 0.0) {
+            return true;
+        }
+        let scale: f64 = a.iter().zip(b).map(|(x, y)| (x * y).abs()).fold(0.0, |s, t| s + t);
+        let delta = 1e-15 * (a.len() as f64 + 1.0) * scale;
+        match self {
+            Km::G(_) => false,
+            Km::L => (got - want).abs() <= delta,
+            Km::P(c, d) => {
+                let s = a.iter().zip(b).map(|(x, y)| x * y).fold(0.0, |s, t| s + t);
+                let (v1, v2) = ((s - delta + c).powf(*d), (s + delta + c).powf(*d));
+                if v1.is_nan() || v2.is_nan() || want.is_nan() {
+                    // the base crosses zero inside the rounding interval: either outcome is legitimate
+                    return got.is_nan() || approx(got, v1, 1e-9, 0.0) || approx(got, v2, 1e-9, 0.0) || approx(got, want, 1e-9, 0.0);
+                }
+                let (lo, hi) = (v1.min(v2).min(want), v1.max(v2).max(want));
+                got >= lo - 1e-12 * lo.abs() && got <= hi + 1e-12 * hi.abs()
+            }
+        }
+    }
+}
+
 fn fl(ex: bool, x: f64) -> String {
     if ex { hex64c(x) } else { format!("~{}", hex64c(x)) }
 }
@@ -231,7 +258,7 @@ fn op_dense(em: &mut Em, x: &Array2<f64>, km: Km, ci: &[usize]) {
             for j in 0..k.len() {
                 let want = km.eval(&rows[i], &rows[j]);
                 finite &= k[i][j].is_finite();
-                ctx.require(approx(k[i][j], want, 1e-12, 0.0), "entry", &class, || format!("K[{},{}] = {} but the kernel function gives {}", i, j, k[i][j], want));
+                ctx.require(km.entry_ok(k[i][j], &rows[i], &rows[j]), "entry", &class, || format!("K[{},{}] = {} but the kernel function gives {}", i, j, k[i][j], want));
                 ctx.require(beq(k[i][j], k[j][i]), "symmetric", &class, || format!("K[{},{}] = {} but K[{},{}] = {}", i, j, k[i][j], j, i, k[j][i]));
             }
             if let Km::G(_) = km {
@@ -427,13 +454,13 @@ fn op_sparse(em: &mut Em, x: &Array2<f64>, km: Km, k: usize, which: usize, ci: &
                 }
                 if stored[i][j] {
                     let want = km.eval(&rows[i], &rows[j]);
-                    ctx.require(approx(mat[i][j], want, 1e-12, 0.0), "sparse_entry", &class, || format!("stored ({},{}) = {} but the kernel function gives {}", i, j, mat[i][j], want));
+                    ctx.require(km.entry_ok(mat[i][j], &rows[i], &rows[j]), "sparse_entry", &class, || format!("stored ({},{}) = {} but the kernel function gives {}", i, j, mat[i][j], want));
                     ctx.require(stored[j][i] && beq(mat[i][j], mat[j][i]), "symmetric", &class, || format!("stored ({},{}) = {} vs ({},{}) = {}", i, j, mat[i][j], j, i, mat[j][i]));
                 }
             }
             if stored[i][i] {
                 let want = km.eval(&rows[i], &rows[i]);
-                ctx.require(approx(mat[i][i], want, 1e-12, 0.0), "sparse_entry", &class, || format!("stored ({0},{0}) = {1} but the kernel function gives {2}", i, mat[i][i], want));
+                ctx.require(km.entry_ok(mat[i][i], &rows[i], &rows[i]), "sparse_entry", &class, || format!("stored ({0},{0}) = {1} but the kernel function gives {2}", i, mat[i][i], want));
             }
         }
         // the stored values are those of the dense kernel of the same records
@@ -798,7 +825,7 @@ fn hier_cases(em: &mut Em, rng: &mut Rng, kernel: &Kernel<f64>, desc: &str, per_
 
 pub fn run(em: &mut Em, rng: &mut Rng) {
     let thorough = em.thorough();
-    let (rounds, nmax) = if thorough { (700, 60) } else { (70, 12) };
+    let (rounds, nmax) = if thorough { (2500, 60) } else { (70, 12) };
     for round in 0..rounds {
         let style = rng.below(5);
         let lattice = style != 4;
